@@ -59,6 +59,31 @@ def step (s : St') (op : List String) (impl : String) : LineOut St' :=
              else if impl == "leaving-not-observed" || impl == "node-error" then none else none
     if impl == "leaving-not-observed" || impl == "node-error" then { state := s, model := none, note := some "setup-failed" }
     else { state := s, model := some expect, monitor := m }
+  | ["leavestall"] =>
+    -- obs s0,s1,…|leave:R,join:R with the leave's broadcasts timing out: states forward only, the join refused
+    if impl == "node-error" then { state := s, model := none, note := some "setup-failed" } else
+    match (String.ofList (impl.toList.drop 4)).splitOn "|" with
+    | [samples, results] =>
+      if !impl.startsWith "obs " then { state := s, model := some "obs …" } else
+      let rs := (samples.splitOn ",").filter (· ≠ "")
+      let m := rs.foldl (fun (acc : Nat × Option (String × String)) x =>
+        match acc.2, rankOf? x with
+        | some e, _ => (acc.1, some e)
+        | none, none => (acc.1, some ("malformed", x))
+        | none, some r => if r < acc.1 then (acc.1, some ("state-backwards", s!"observer saw rank {acc.1} then {x} around a Leave whose broadcast timed out")) else (r, none)) (0, none)
+      let m2 := match m.2 with
+        | some e => some e
+        | none =>
+          if (results.splitOn ",").any (fun r => (r.splitOn ":panic-").length > 1) then some ("panic", results)
+          else if !(results.splitOn ",").contains "join:refused" then
+            some ("join-not-refused", "a join after a leave had begun (its broadcast timed out) was not refused")
+          else none
+      -- model: Leave's regions run to the end whatever the broadcasts do (`C34_regions_forward`), Join is refused
+      let (st, r) := callSeq P .alive .leave
+      let (_, rj) := callSeq P st .join
+      let expect := s!"leave:{showRes r},join:{match rj with | .ok => "attempted" | .err => "refused"}"
+      { state := s, model := some ("obs " ++ samples ++ "|" ++ expect), monitor := m2 }
+    | _ => { state := s, model := some "obs …" }
   | "conc" :: _ =>
     -- obs s0,s1,…|leave:ok,join:refused,…   (state samples in observation order)
     match (String.ofList (impl.toList.drop 4)).splitOn "|" with
